@@ -14,6 +14,7 @@ import (
 	"runtime/debug"
 	"strconv"
 	"strings"
+	"time"
 )
 
 type doc struct {
@@ -177,6 +178,17 @@ type outcome struct {
 	Panic    string   `json:"panic"`
 	Assume   bool     `json:"assume"`
 	Finished bool     `json:"finished"`
+	Hang     bool     `json:"hang"` // the harness did not return within the hang limit (a deadlock, natively)
+}
+
+// hangLimit: how long one native run of a harness may take before it is reported as hanging.
+func hangLimit() time.Duration {
+	if s := os.Getenv("VERIF_REPLAY_HANG_SECONDS"); s != "" {
+		if n, err := strconv.Atoi(s); err == nil && n > 0 {
+			return time.Duration(n) * time.Second
+		}
+	}
+	return 30 * time.Second
 }
 
 // ReplayAll runs every replay file listed in $VERIF_REPLAY_LIST and prints one NDRESULT line each.
@@ -200,7 +212,9 @@ func ReplayAll(harnesses map[string]func()) {
 				if round > 0 {
 					load(f)
 				}
-				func() {
+				done := make(chan struct{})
+				go func() {
+					defer close(done)
 					defer func() {
 						if r := recover(); r != nil {
 							if _, ok := r.(assumeViolated); ok {
@@ -213,7 +227,17 @@ func ReplayAll(harnesses map[string]func()) {
 					h()
 					o.Finished = true
 				}()
+				select {
+				case <-done:
+				case <-time.After(hangLimit()):
+					// the run is blocked for good (the goroutine is abandoned; it holds nothing the next
+					// replay uses, every replay builds its own client)
+					o.Hang = true
+				}
 				o.Failed = append(o.Failed, failed...)
+				if o.Hang {
+					break
+				}
 			}
 		}
 		b, _ := json.Marshal(o)
